@@ -15,7 +15,7 @@ from vf.common import MachineryError
 PROP = "C18"
 RESERVED = ("_source", "_classification", "_generated", "_version")
 TBL = {"ta": "select/from", "tb": "Tb/x", "tc": "sqlitex/history"}
-TABLE_OF = {"A": "ta", "Aplus": "ta", "Aplus2": "ta", "B": "tb", "C": "tc"}
+TABLE_OF = {"A": "ta", "Aplus": "ta", "Aplus2": "ta", "Aalt": "ta", "B": "tb", "C": "tc"}
 
 
 def descs():
@@ -26,6 +26,7 @@ def descs():
         "Aplus": RecordDescriptor("select/from", [("string", "a"), ("varint", "n"), ("float", "extra")]),
         "Aplus2": RecordDescriptor("select/from", [("string", "a"), ("varint", "n"), ("float", "extra"), ("string", "extra2")]),
         "C": RecordDescriptor("sqlitex/history", [("string", "q")]),
+        "Aalt": RecordDescriptor("select/from", [("string", "a"), ("string", "alt")]),
         "B": RecordDescriptor("Tb/x", [("string", "q"), ("bytes", "b"), ("datetime", "ts"), ("path", "p"), ("net.ipaddress", "ip")]),
     }
 
@@ -33,6 +34,8 @@ def descs():
 def value_pool(rnd):
     vc = gen.value_classes()
     strs = [v for l, v in vc["string"] if l not in ("escape", "none", "len65535", "len65536")] + [None]
+    # text that LOOKS like a number must stay that text (leading zeros, a plus sign, a trailing zero, an exponent, blanks)
+    strs += ["42", "0042", "+31612345678", "3.10", "1e3", " 15", ".5", "-0", "1_000", "0x10", "Infinity", "NaN", "١٢٣"]
     ints = [v for l, v in vc["varint"] if v is None or -(2**63) <= v < 2**63]
     floats = [v for l, v in vc["float"] if v is None or (v == v and abs(v) != float("inf"))]
     byts = [v for l, v in vc["bytes"] if l != "len65536"]
@@ -53,6 +56,8 @@ def make(DESC, d, pool, rnd, rid):
         return DESC[d](c(pool["s"]), c(pool["i"]), c(pool["f"]), c(pool["s"]), **kw)
     if d == "C":
         return DESC[d](c(pool["s"]), **kw)
+    if d == "Aalt":
+        return DESC[d](c(pool["s"]), c(pool["s"]), **kw)
     return DESC[d](c(pool["s"]), c(pool["b"]), c(pool["d"]), c(pool["p"]), c(pool["ip"]), **kw)
 
 
@@ -214,7 +219,7 @@ def random_hist(rnd, maxlen, maxbatch):
     ops = []
     for _ in range(rnd.randint(1, maxlen)):
         x = rnd.random()
-        ops.append(("flush",) if x < 0.12 else ("write", rnd.choice(["A", "A", "Aplus", "Aplus2", "B", "C"])))
+        ops.append(("flush",) if x < 0.12 else ("write", rnd.choice(["A", "A", "Aplus", "Aplus2", "Aalt", "B", "C"])))
     ops.append(("close",))
     return (rnd.randint(1, maxbatch), ops)
 
@@ -277,7 +282,7 @@ def run(tier):
     if drift:
         ctx.note(f"model drift on {len(drift)} traces")
     ctx.count(len(traces), nev)
-    ctx.extra["rule"] = "histories = TLC-simulated behaviours of Sqlite.tla + seeded random op sequences (write A/Aplus/Aplus2/B/C, flush, close) with batch sizes 1..9; distinct = distinct (batch, op sequence)"
+    ctx.extra["rule"] = "histories = TLC-simulated behaviours of Sqlite.tla + seeded random op sequences (write A/Aplus/Aplus2/Aalt/B/C, flush, close) with batch sizes 1..9; distinct = distinct (batch, op sequence)"
     ctx.extra["simulated_behaviours_replayed"] = nsim
     ctx.assumptions += ["values restricted to what the property names as SQLite-mappable: valid-UTF-8 text, 64-bit integers, finite floats, bytes, timestamps; other types compared by text form",
                         "one writer per database"]
